@@ -18,6 +18,7 @@ import (
 	"slices"
 	"sort"
 	"strings"
+	"sync"
 	"sync/atomic"
 	"time"
 
@@ -43,7 +44,7 @@ func (eng) Rule(mode string) string {
 	if mode == "c18" {
 		return "c18: valid layouts (2..6 levels, 0..4 level-0 tables, deeper levels of 0..3 range-disjoint tables, populated middle levels) built from a random write history split chronologically; random compactor settings (trigger 1..4, amplification 1..1000 %, smallest level size 0..20000, target table size 30..100000); Compact stepped to nil with 0..2 new level-0 tables between Compact and the apply. Non-trivial: at least one non-nil step on a layout with two or more populated levels."
 	}
-	return "c07: histories of 15..70 operations over 4..8 keys with shared prefixes (incl. the empty key), MemTableSize 19..160, MaxWALSize small or unlimited, L0 trigger 1..4, tuned compactor constants; flush and compaction tasks advanced one half-step (F1,F2,C1,C2) at generated points, also between the two snapshots of a read; one in four C1 half-steps runs with a storage read fault (ReadAt of one table fails from a generated offset) - a Compact that returns the error ends the task, reads must stay 'latest write wins' either way. Non-trivial: some read happened while the level list held a table and some flush swap was executed."
+	return "c07: histories of 15..70 operations over 4..8 keys with shared prefixes (incl. the empty key), MemTableSize 19..160, MaxWALSize small or unlimited, L0 trigger 1..4, tuned compactor constants; flush and compaction tasks advanced one half-step (F1,F2,C1,C2) at generated points, also between the two snapshots of a read; some F1 / C1 half-steps have the Save of their first table held (a slow upload) so that table writes of the flush and of the compaction overlap, every table file name must be created and saved once; one in four C1 half-steps runs with a storage read fault (ReadAt of one table fails from a generated offset) - a Compact that returns the error ends the task, reads must stay 'latest write wins' either way. Non-trivial: some read happened while the level list held a table and some flush swap was executed."
 }
 
 // ---------------------------------------------------------------- shared helpers
@@ -138,8 +139,13 @@ var bgKinds = []string{"F1", "F2", "C1", "C2"}
 
 func pickBg(r *hx.Rand) string {
 	a := hx.Pick(r, bgKinds)
-	if a == "C1" && r.Chance(1, 4) {
+	switch {
+	case a == "C1" && r.Chance(1, 4):
 		return fmt.Sprintf("C1f%d:%d", r.Intn(8), r.Range(0, 90))
+	case a == "C1" && r.Chance(1, 3):
+		return "C1g"
+	case a == "F1" && r.Chance(1, 4):
+		return "F1g"
 	}
 	return a
 }
@@ -211,6 +217,7 @@ type sched struct {
 	ffs          *faultFS
 	beginArrived bool // the next compaction task already reported dkv.compact.begin
 	failedTasks  int  // compaction tasks that ended with a (fault-induced) error
+	gateHolder   string // "F" / "C": the task whose table Save is parked at the gate
 }
 
 var hookNames = []string{"dkv.flush.begin", "dkv.flush.swap", "dkv.flush.end", "dkv.compact.begin", "dkv.compact.iter",
@@ -243,24 +250,52 @@ func (s *sched) emit(term, human string) {
 	s.log = append(s.log, human)
 }
 
-func (s *sched) f1() bool {
+func (s *sched) f1(gate bool) bool {
 	if s.fstate != 0 || s.flushPending == 0 || s.err != nil {
 		return false
 	}
 	if !s.wait("dkv.flush.begin") {
 		return false
 	}
-	s.rel("dkv.flush.begin")
-	if !s.wait("dkv.flush.swap") {
-		return false
+	if gate && s.gateHolder == "" {
+		// hold the Save of the first table this flush writes; released by the next F2
+		s.ffs.gateArmed.Store(true)
+		s.rel("dkv.flush.begin")
+		select {
+		case <-s.ffs.gateArrive:
+			s.fstate = 3
+			s.gateHolder = "F"
+			s.tags["flush_save_held"] = true
+		case <-s.arrive["dkv.flush.swap"]:
+			s.fstate = 1
+		case <-time.After(20 * time.Second):
+			s.err = fmt.Errorf("flush task reached neither a table Save nor dkv.flush.swap")
+			return false
+		}
+		s.ffs.gateArmed.Store(false)
+	} else {
+		s.rel("dkv.flush.begin")
+		if !s.wait("dkv.flush.swap") {
+			return false
+		}
+		s.fstate = 1
+	}
+	if s.cstate == 3 {
+		s.tags["flush_wrote_while_compaction_save_held"] = true
 	}
 	s.flushPending--
-	s.fstate = 1
 	s.emit("OF1", "F1")
 	return true
 }
 
 func (s *sched) f2() bool {
+	if s.fstate == 3 && s.err == nil {
+		s.releaseGate()
+		if !s.wait("dkv.flush.swap") {
+			return false
+		}
+		s.fstate = 1
+	}
 	if s.fstate != 1 || s.err != nil {
 		return false
 	}
@@ -279,7 +314,8 @@ func (s *sched) f2() bool {
 	return true
 }
 
-// parseFault: "C1f<table index>:<offset>" arms a storage read fault for the Compact call of this half-step.
+// parseFault: "C1f<table index>:<offset>" arms a storage read fault for the Compact call of this half-step;
+// "C1g" / "F1g" hold the first table Save of the step (see gate).
 func parseFault(a string) (kind string, fault *fault18) {
 	if strings.HasPrefix(a, "C1f") {
 		var f fault18
@@ -288,29 +324,86 @@ func parseFault(a string) (kind string, fault *fault18) {
 		}
 		return "C1", nil
 	}
+	if a == "C1g" {
+		return "C1", nil
+	}
+	if a == "F1g" {
+		return "F1", nil
+	}
 	return a, nil
+}
+
+// startCompTask brings the next compaction task to its loop head.
+func (s *sched) startCompTask() bool {
+	if s.cstate != 0 {
+		return true
+	}
+	if s.compPending == 0 {
+		return false
+	}
+	if !s.beginArrived && !s.wait("dkv.compact.begin") {
+		return false
+	}
+	s.beginArrived = false
+	s.rel("dkv.compact.begin")
+	if !s.wait("dkv.compact.iter") {
+		return false
+	}
+	s.compPending--
+	s.cstate = 1
+	return true
+}
+
+// releaseGate lets the table Save that is parked at the gate finish.
+func (s *sched) releaseGate() {
+	select {
+	case s.ffs.gateRelease <- struct{}{}:
+	case <-time.After(20 * time.Second):
+		s.err = fmt.Errorf("no table Save parked at the gate")
+	}
+	s.gateHolder = ""
+}
+
+// c1g: a C1 half-step whose first output-table Save is held (the compaction is "uploading" its table) so that later
+// half-steps - a flush writing its tables - overlap with it; the Save is released by the next C2.
+func (s *sched) c1g() bool {
+	if s.err != nil || s.gateHolder != "" {
+		return s.c1(nil)
+	}
+	if !s.startCompTask() || s.cstate != 1 {
+		return false
+	}
+	s.ffs.faults.Store(0)
+	s.ffs.gateArmed.Store(true)
+	s.rel("dkv.compact.iter")
+	if s.err != nil {
+		return false
+	}
+	select {
+	case <-s.ffs.gateArrive:
+		s.cstate = 3
+		s.gateHolder = "C"
+		s.tags["compaction_save_held"] = true
+		s.emit("(OC1 true)", "C1:cs(save held)")
+	case <-s.arrive["dkv.compact.swap"]:
+		s.cstate = 2
+		s.emit("(OC1 true)", "C1:cs")
+	case <-s.arrive["dkv.compact.end"]:
+		s.rel("dkv.compact.end")
+		s.cstate = 0
+		s.emit("(OC1 false)", "C1:nil")
+	case <-time.After(20 * time.Second):
+		s.err = fmt.Errorf("compaction task reached neither a table Save nor dkv.compact.swap nor dkv.compact.end")
+	}
+	s.ffs.gateArmed.Store(false)
+	return s.err == nil
 }
 
 func (s *sched) c1(fault *fault18) bool {
 	if s.err != nil {
 		return false
 	}
-	if s.cstate == 0 {
-		if s.compPending == 0 {
-			return false
-		}
-		if !s.beginArrived && !s.wait("dkv.compact.begin") {
-			return false
-		}
-		s.beginArrived = false
-		s.rel("dkv.compact.begin")
-		if !s.wait("dkv.compact.iter") {
-			return false
-		}
-		s.compPending--
-		s.cstate = 1
-	}
-	if s.cstate != 1 {
+	if !s.startCompTask() || s.cstate != 1 {
 		return false
 	}
 	// a read fault on one table while Compact runs; if Compact returns the error the task ends without passing a hook
@@ -370,6 +463,13 @@ func (s *sched) c1(fault *fault18) bool {
 }
 
 func (s *sched) c2() bool {
+	if s.cstate == 3 && s.err == nil {
+		s.releaseGate()
+		if !s.wait("dkv.compact.swap") {
+			return false
+		}
+		s.cstate = 2
+	}
 	if s.cstate != 2 || s.err != nil {
 		return false
 	}
@@ -385,7 +485,7 @@ func (s *sched) c2() bool {
 
 func (s *sched) runCompactionTask() {
 	steps := 0
-	if s.cstate == 2 {
+	if s.cstate == 2 || s.cstate == 3 {
 		s.c2()
 	}
 	for s.err == nil {
@@ -404,14 +504,26 @@ func (s *sched) runCompactionTask() {
 }
 
 func (s *sched) bg(a string) bool {
+	raw := a
 	a, fault := parseFault(a)
 	switch a {
 	case "F1":
-		return s.f1()
+		return s.f1(raw == "F1g")
 	case "F2":
 		return s.f2()
 	case "C1":
-		return s.c1(fault)
+		if raw == "C1g" {
+			ok := s.c1g()
+			if ok && s.fstate == 3 {
+				s.tags["compaction_wrote_while_flush_save_held"] = true
+			}
+			return ok
+		}
+		ok := s.c1(fault)
+		if ok && s.fstate == 3 {
+			s.tags["compaction_wrote_while_flush_save_held"] = true
+		}
+		return ok
 	case "C2":
 		return s.c2()
 	}
@@ -420,10 +532,10 @@ func (s *sched) bg(a string) bool {
 
 func (s *sched) write(k, v []byte, del bool) {
 	for s.flushPending >= 4 && s.err == nil { // the flush queue holds 5 functions: make room first
-		if s.fstate == 1 {
+		if s.fstate != 0 {
 			s.f2()
 		} else {
-			s.f1()
+			s.f1(false)
 		}
 	}
 	if s.err != nil {
@@ -460,6 +572,7 @@ func (s *sched) write(k, v []byte, del bool) {
 type readRes struct {
 	term, human string
 	err         error
+	readErr     string // the API call returned an error: an observed outcome (specification violation), not an engine failure
 }
 
 func (s *sched) read(scan bool, k []byte, bgs []string) {
@@ -502,7 +615,7 @@ func (s *sched) read(scan bool, k []byte, bgs []string) {
 				out = append(out, kvPair{bytes.Clone(e.Key()), bytes.Clone(e.Value())})
 			}
 			if serr != nil && !errors.Is(serr, io.EOF) {
-				done <- readRes{err: fmt.Errorf("ScanPrefix error: %v", serr)}
+				done <- readRes{term: "(OScan2 " + coqKVs(nil) + ")", human: "scan2 ERROR", readErr: fmt.Sprintf("ScanPrefix error: %v", serr)}
 				return
 			}
 			done <- readRes{term: "(OScan2 " + coqKVs(out) + ")", human: "scan2 " + strings.Join(jsonKVs(out), ",")}
@@ -511,7 +624,7 @@ func (s *sched) read(scan bool, k []byte, bgs []string) {
 		e, err := db.Get(k)
 		t, h, err2 := coqGetRes(e, err)
 		if err2 != nil {
-			done <- readRes{err: fmt.Errorf("Get error: %v", err2)}
+			done <- readRes{term: "(OGet2 GAbsent)", human: "get2 ERROR", readErr: fmt.Sprintf("Get error: %v", err2)}
 			return
 		}
 		done <- readRes{term: "(OGet2 " + t + ")", human: "get2 " + h}
@@ -550,6 +663,10 @@ func (s *sched) read(scan bool, k []byte, bgs []string) {
 		s.err = res.err
 		return
 	}
+	if res.readErr != "" {
+		s.tags["read_returned_error"] = true
+		s.emit("OReadErr", res.readErr)
+	}
 	s.emit(res.term, res.human)
 }
 
@@ -572,7 +689,7 @@ func execC07(c *hx.Case) (*hx.Result, error) {
 	verifhook.SetTuning("dkv", dkv.VerifDBTuning{MaxSizeAmplificationPercent: maxamp, SmallestLevelSize: int64(smallest), LevelSizeMultiplier: 10})
 	defer verifhook.SetTuning("dkv", nil)
 	s := &sched{arrive: map[string]chan struct{}{}, release: map[string]chan struct{}{}, tags: map[string]bool{},
-		flushedKeys: map[string]bool{}, activeKeys: map[string]bool{}, ffs: &faultFS{FileSystem: storage.NewMemoryFilesystem()}}
+		flushedKeys: map[string]bool{}, activeKeys: map[string]bool{}, ffs: newFaultFS()}
 	for _, n := range hookNames {
 		s.arrive[n] = make(chan struct{}, 1)
 		s.release[n] = make(chan struct{})
@@ -618,7 +735,7 @@ func execC07(c *hx.Case) (*hx.Result, error) {
 		case "scan":
 			s.read(true, o.K, o.Bg)
 		case "bg":
-			if o.A == "F2" && s.fstate == 1 {
+			if o.A == "F2" && s.fstate != 0 {
 				// bookkeeping for the delete-after-flush tag: the oldest sealed memtables reach the level list
 				n := len(s.sealedKeys) - s.flushPending
 				for i := 0; i < n && i < len(s.sealedKeys); i++ {
@@ -638,14 +755,18 @@ func execC07(c *hx.Case) (*hx.Result, error) {
 	}
 	// drain: run every pending background task to its end, then read everything once more
 	for s.err == nil && (s.fstate != 0 || s.flushPending > 0) {
-		if s.fstate == 1 {
+		if s.fstate != 0 {
 			s.f2()
 		} else {
-			s.f1()
+			s.f1(false)
 		}
 	}
 	for s.err == nil && (s.cstate != 0 || s.compPending > 0) {
 		s.runCompactionTask()
+	}
+	for _, d := range s.ffs.takeDups() {
+		s.tags["table_file_name_reused"] = true
+		s.emit("ODupFile", "table file "+d)
 	}
 	if s.err == nil {
 		sort.Slice(keys, func(i, j int) bool { return bytes.Compare(keys[i], keys[j]) < 0 })
@@ -719,13 +840,61 @@ type faultFS struct {
 	failName string
 	failFrom int64
 	faults   atomic.Int64
+	// Save gate: while armed, the next Save of a *.sst file parks until released (a slow upload of a table)
+	gateArmed   atomic.Bool
+	gateArrive  chan string
+	gateRelease chan struct{}
+	// every table file name must be created and saved once
+	mu      sync.Mutex
+	created map[string]int
+	saved   map[string]int
+	dups    []string
 }
 
-func (fs *faultFS) New(path string) storage.File { return &faultFile{File: fs.FileSystem.New(path), fs: fs} }
+func newFaultFS() *faultFS {
+	return &faultFS{FileSystem: storage.NewMemoryFilesystem(), gateArrive: make(chan string, 1), gateRelease: make(chan struct{}),
+		created: map[string]int{}, saved: map[string]int{}}
+}
+
+func (fs *faultFS) note(m map[string]int, what, name string) {
+	if !strings.HasSuffix(name, ".sst") {
+		return
+	}
+	fs.mu.Lock()
+	m[name]++
+	if m[name] > 1 {
+		fs.dups = append(fs.dups, what+" "+name)
+	}
+	fs.mu.Unlock()
+}
+
+func (fs *faultFS) takeDups() []string {
+	fs.mu.Lock()
+	defer fs.mu.Unlock()
+	d := fs.dups
+	fs.dups = nil
+	return d
+}
+
+func (fs *faultFS) New(path string) storage.File {
+	fs.note(fs.created, "created twice:", path)
+	return &faultFile{File: fs.FileSystem.New(path), fs: fs}
+}
 
 type faultFile struct {
 	storage.File
 	fs *faultFS
+}
+
+func (f *faultFile) Save() error {
+	if strings.HasSuffix(f.Name(), ".sst") {
+		if f.fs.gateArmed.CompareAndSwap(true, false) {
+			f.fs.gateArrive <- f.Name()
+			<-f.fs.gateRelease
+		}
+		f.fs.note(f.fs.saved, "saved twice:", f.Name())
+	}
+	return f.File.Save()
 }
 
 func (f *faultFile) ReadAt(p []byte, off int64) (int, error) {
@@ -960,7 +1129,7 @@ func execC18(c *hx.Case) (*hx.Result, error) {
 	if target < 1 {
 		target = 1
 	}
-	ffs := &faultFS{FileSystem: storage.NewMemoryFilesystem()}
+	ffs := newFaultFS()
 	tw := sst.NewTableWriter(ffs, 0)
 	tabs := make([][]*sst.Table, len(levels))
 	populated := 0
